@@ -40,6 +40,9 @@ def main():
             shutil.copy(os.path.join(seeddir, f), os.path.join(out, f))
     wt = tempfile.mkdtemp(prefix="sv_")
     os.rmdir(wt)
+    prev = {}
+    if os.path.exists(os.path.join(out, "meta.json")):
+        prev = json.load(open(os.path.join(out, "meta.json")))
     meta = {"property": prop, "name": name, "verified_at": time.strftime("%Y-%m-%d %H:%M:%S"),
             "repo_head": run(["git", "-C", "/repo", "rev-parse", "--short", "HEAD"]).stdout.strip()}
     try:
@@ -54,6 +57,10 @@ def main():
             meta["error"] = r.stderr[-500:]
             return 2
         penv = dict(ENV, PYTHONPATH=os.path.join(wt, "src"))
+        if skip_suite:
+            for k in ("suite_on_patched_tree", "suite_ok"):
+                if k in prev:
+                    meta[k] = prev[k]
         if not skip_suite:
             r = run(["/venv/bin/python", "-m", "pytest", "-q", "-p", "no:cacheprovider", "--timeout=900",
                      "tests"], cwd=wt, env=penv)
@@ -78,7 +85,7 @@ def main():
     meta["check_wall_s"] = round(time.time() - t0, 1)
     meta["check_first_violations"] = [ln.strip()[:300] for ln in lines if "sub-oracle=" in ln][:3]
     meta["caught"] = bool(lines and lines[0] == "exit=1")
-    meta["confirmed"] = bool(meta.get("patch_applies") and meta.get("suite_ok", skip_suite)
+    meta["confirmed"] = bool(meta.get("patch_applies") and meta.get("suite_ok", False)
                              and meta["demo_patched_exit"] != 0 and meta["demo_clean_exit"] == 0)
     note = os.path.join(out, "NOTE.md")
     meta["needs_to_manifest"] = open(note).read()[:1500] if os.path.exists(note) else ""
